@@ -481,6 +481,109 @@ theorem C09_install (dec4 : Bytes → Bool → Outcome (List (Nat × Nat))) (hig
       simp only [List.mem_cons, List.mem_nil_iff, or_false] at hkd
       rcases hkd with rfl | rfl <;> exact ⟨by rw [hc]; simp, rfl⟩
 
+open SfntV.CmapTable in
+/-- **`InstallCMap` picks the encoding ids by code range.**  The model of `Format12.CodeRange`'s `high`
+(two independent `if`s inside a loop over the Go map) is the maximum of the code points, whatever the
+order of the entries, and the keys the model of `Font.InstallCMap` files the subtable under are the ones
+the specification demands: (0,4)+(3,10) exactly when some code point lies beyond the BMP, (0,3)+(3,1)
+otherwise. -/
+theorem C09_install_keys (m : KV) (sub : Bytes) :
+    codeRangeHigh12 m = (specCodeRange (m.map fun k => toRune k.1)).2 ∧
+    (install (codeRangeHigh12 m) sub).map (·.1) = specInstallKeys (m.map fun k => toRune k.1) := by
+  have h1 : codeRangeHigh12 m = (specCodeRange (m.map fun k => toRune k.1)).2 := by
+    cases m with
+    | nil => rfl
+    | cons k rest =>
+      simp only [codeRangeHigh12, List.map_cons, specCodeRange, List.foldl_map]
+      congr 1
+      funext h x
+      rw [Int.max_def]
+      split <;> split <;> omega
+  refine ⟨h1, ?_⟩
+  unfold install specInstallKeys
+  rw [h1]
+  split <;> rfl
+
+open SfntV.CmapTable in
+/-- the result does not depend on the order in which a Go map is visited: any permutation of the
+entries gives the same maximum -/
+theorem C09_coderange_order (a b : List Int) (h : a.Perm b) : specCodeRange a = specCodeRange b := by
+  -- both components are determined by the set of elements
+  have key : ∀ l : List Int, ∀ x, (l.foldl min x ≤ x ∧ (∀ y ∈ l, l.foldl min x ≤ y) ∧ (l.foldl min x = x ∨ l.foldl min x ∈ l)) ∧
+      (x ≤ l.foldl max x ∧ (∀ y ∈ l, y ≤ l.foldl max x) ∧ (l.foldl max x = x ∨ l.foldl max x ∈ l)) := by
+    intro l
+    induction l with
+    | nil => intro x; simp
+    | cons z l ih =>
+      intro x
+      have h1 := (ih (min x z)).1
+      have h2 := (ih (max x z)).2
+      simp only [List.foldl_cons, List.mem_cons]
+      refine ⟨⟨by omega, ?_, ?_⟩, ⟨by omega, ?_, ?_⟩⟩
+      · intro y hy; rcases hy with rfl | hy
+        · omega
+        · exact h1.2.1 y hy
+      · rcases h1.2.2 with h | h
+        · rw [h]; omega
+        · exact Or.inr (Or.inr h)
+      · intro y hy; rcases hy with rfl | hy
+        · omega
+        · exact h2.2.1 y hy
+      · rcases h2.2.2 with h | h
+        · rw [h]; omega
+        · exact Or.inr (Or.inr h)
+  cases a with
+  | nil => rw [h.symm.eq_nil]
+  | cons x l =>
+    cases b with
+    | nil => exact absurd h.symm (by simp)
+    | cons x' l' =>
+      have ka := key l x
+      have kb := key l' x'
+      have hm : ∀ y, y ∈ x :: l ↔ y ∈ x' :: l' := fun y => h.mem_iff
+      simp only [specCodeRange]
+      have e1 : l.foldl min x = l'.foldl min x' := by
+        apply Int.le_antisymm
+        · rcases kb.1.2.2 with e | e
+          · have := (hm x').mpr List.mem_cons_self
+            rcases List.mem_cons.mp this with r | r
+            · rw [e, r]; exact ka.1.1
+            · rw [e]; exact ka.1.2.1 _ r
+          · have := (hm _).mpr (List.mem_cons_of_mem _ e)
+            rcases List.mem_cons.mp this with r | r
+            · rw [r]; exact ka.1.1
+            · exact ka.1.2.1 _ r
+        · rcases ka.1.2.2 with e | e
+          · have := (hm x).mp List.mem_cons_self
+            rcases List.mem_cons.mp this with r | r
+            · rw [e, r]; exact kb.1.1
+            · rw [e]; exact kb.1.2.1 _ r
+          · have := (hm _).mp (List.mem_cons_of_mem _ e)
+            rcases List.mem_cons.mp this with r | r
+            · rw [r]; exact kb.1.1
+            · exact kb.1.2.1 _ r
+      have e2 : l.foldl max x = l'.foldl max x' := by
+        apply Int.le_antisymm
+        · rcases ka.2.2.2 with e | e
+          · have := (hm x).mp List.mem_cons_self
+            rcases List.mem_cons.mp this with r | r
+            · rw [e, r]; exact kb.2.1
+            · rw [e]; exact kb.2.2.1 _ r
+          · have := (hm _).mp (List.mem_cons_of_mem _ e)
+            rcases List.mem_cons.mp this with r | r
+            · rw [r]; exact kb.2.1
+            · exact kb.2.2.1 _ r
+        · rcases kb.2.2.2 with e | e
+          · have := (hm x').mpr List.mem_cons_self
+            rcases List.mem_cons.mp this with r | r
+            · rw [e, r]; exact ka.2.1
+            · rw [e]; exact ka.2.2.1 _ r
+          · have := (hm _).mpr (List.mem_cons_of_mem _ e)
+            rcases List.mem_cons.mp this with r | r
+            · rw [r]; exact ka.2.1
+            · exact ka.2.2.1 _ r
+      rw [e1, e2]
+
 set_option maxRecDepth 8192 in
 /-- The facts regenerated from the Go source that the models hard-code: the formats accepted by
 `Decode`'s switch all have an entry in the `decoders` map (so `Get` never calls nil), which formats
